@@ -71,8 +71,9 @@ Init == /\ signal \in SignalSet /\ rules \in RuleLists /\ dflt \in BOOLEAN
 SameArgs(sc) == {h \in 1..Len(handles) : handles[h].scope = sc}
 F13(sc) == signal = "logs" /\ ~Enabled(sc)
 
+Askable(sc) == sc.attr = "" \/ signal = "logs"    \* ABI v1: only GetLogger takes scope attributes
 GetIdeal(sc) ==
-  /\ Len(handles) < MaxGets
+  /\ Len(handles) < MaxGets /\ Askable(sc)
   /\ LET o == IF sc \in DOMAIN objs THEN objs[sc] ELSE nobj + 1 IN
      /\ objs' = IF sc \in DOMAIN objs THEN objs ELSE objs @@ (sc :> o)
      /\ nobj' = IF sc \in DOMAIN objs THEN nobj ELSE nobj + 1
@@ -133,22 +134,44 @@ DevNarrow ==
      => (signal = "logs" /\ ~Enabled(handles[a].scope))
 
 (* ---- behaviour export ---------------------------------------------------------- *)
-\* Sweep export: for one configuration, the continuation "Get(sc); Emit" for EVERY scope at once
+\* Sweep export: for one configuration, the continuation "Get(sc); Emit" for EVERY scope at once.
+\* tags: vacuity guard (every tag must occur among the replayed cases)
+RuleTags(sc) ==
+  LET ms == {k \in 1..Len(rules) : MatchRule(rules[k].m, sc)} IN
+  {t \in {"enabled", "disabled", "default", "second", "third", "shadowed", "byname", "bycond"} :
+     CASE t = "enabled"  -> Enabled(sc)
+       [] t = "disabled" -> ~Enabled(sc)
+       [] t = "default"  -> rules # <<>> /\ ms = {}
+       [] t = "second"   -> 1 \notin ms /\ 2 \in ms
+       [] t = "third"    -> 1 \notin ms /\ 2 \notin ms /\ 3 \in ms
+       [] t = "shadowed" -> \E j, k \in ms : j < k /\ rules[j].en # rules[k].en
+       [] t = "byname"   -> ms # {} /\ rules[CHOOSE k \in ms : \A j \in ms : k <= j].m.k = "name"
+       [] t = "bycond"   -> ms # {} /\ rules[CHOOSE k \in ms : \A j \in ms : k <= j].m.k # "name"}
 Sweep == PrintT(<<"BEHS", ToJson([signal |-> signal, rules |-> rules, dflt |-> dflt,
-                                  cases |-> {[scope |-> sc, enabled |-> Enabled(sc)] : sc \in ScopeSet}])>>)
+                                  cases |-> {[scope |-> sc, enabled |-> Enabled(sc), tags |-> RuleTags(sc)] :
+                                               sc \in {sc \in ScopeSet : Askable(sc)}}])>>)
 EmitSweep == (handles = <<>>) => Sweep
 Done    == Len(handles) = MaxGets /\ Len(attempts) = MaxEmits
-EmitAll == Done => PrintT(<<"BEH", ToJson([signal |-> signal, rules |-> rules, dflt |-> dflt, steps |-> hist])>>)
-Wit(c)  == (Done /\ c) => (PrintT(<<"BEH", ToJson([signal |-> signal, rules |-> rules, dflt |-> dflt, steps |-> hist])>>) /\ FALSE)
-WitSameTwice     == Wit(\E a, b \in 1..Len(handles) : a < b /\ handles[a].scope = handles[b].scope)
-WitDisabledTwice == Wit(\E a, b \in 1..Len(handles) : a < b /\ handles[a].scope = handles[b].scope
-                          /\ ~Enabled(handles[a].scope) /\ signal = "logs")
-WitSecondRule    == Wit(Len(rules) >= 2 /\ \E j \in 1..Len(attempts) :
-                          ~MatchRule(rules[1].m, attempts[j]) /\ MatchRule(rules[2].m, attempts[j]))
-WitShadowed      == Wit(Len(rules) >= 2 /\ \E j \in 1..Len(attempts) :
-                          MatchRule(rules[1].m, attempts[j]) /\ MatchRule(rules[2].m, attempts[j])
-                          /\ rules[1].en # rules[2].en)
-WitMixed         == Wit(\E j1, j2 \in 1..Len(attempts) : Enabled(attempts[j1]) /\ ~Enabled(attempts[j2]))
+Beh(w)  == PrintT(<<"BEH", ToJson([signal |-> signal, rules |-> rules, dflt |-> dflt, steps |-> hist, wit |-> w])>>)
+EmitAll == Done => Beh("")
+\* witness-directed behaviours: ONE run (workers = 1, breadth first) prints a shortest complete
+\* behaviour for every rare situation the first time it is reached (register 1 = situations seen)
+\* and stops - "violating" the invariant - once all have been seen
+WitNames == {"SameTwice", "DisabledLogTwice", "EnabledLogTwice", "Mixed", "EmitOldHandle"}
+WitCond(w) ==
+  CASE w = "SameTwice"        -> \E a, b \in 1..Len(handles) : a < b /\ handles[a].scope = handles[b].scope /\ signal # "logs"
+    [] w = "DisabledLogTwice" -> \E a, b \in 1..Len(handles) : a < b /\ handles[a].scope = handles[b].scope
+                                   /\ ~Enabled(handles[a].scope) /\ signal = "logs"
+    [] w = "EnabledLogTwice"  -> \E a, b \in 1..Len(handles) : a < b /\ handles[a].scope = handles[b].scope
+                                   /\ Enabled(handles[a].scope) /\ signal = "logs"
+    [] w = "Mixed"            -> \E j1, j2 \in 1..Len(attempts) : Enabled(attempts[j1]) /\ ~Enabled(attempts[j2])
+    [] w = "EmitOldHandle"    -> Len(hist) >= 3 /\ hist[Len(hist)].op = "emit" /\ hist[Len(hist)].h < Len(handles)
+WInit == TLCSet(1, {}) /\ Init
+WitAll == Done =>
+  LET new == {w \in WitNames : w \notin TLCGet(1) /\ WitCond(w)} IN
+  new # {} => /\ \A w \in new : Beh(w)
+              /\ TLCSet(1, TLCGet(1) \cup new)
+              /\ TLCGet(1) # WitNames
 
 (* ---- named domains for the configs -------------------------------------------- *)
 SA1 == Sc("A", "1.0", "s", "")
